@@ -13,3 +13,6 @@ import DeepModel.Props.C08
 #print axioms C08.c08_attr_values_accepted_partial
 #print axioms C08.c08_resource
 #print axioms C08.c08_auth
+#print axioms C08.c08_auth_recovers
+#print axioms C08.c08_auth_fault_not_cached
+#print axioms C08.c08_auth_concurrent
